@@ -70,6 +70,27 @@ func genC10(out *Out, r *Rng, tier string, n int, shard int) {
 		}
 		mz := run.Mz
 		ents := mz.VerifEntries()
+		// what the standalone API returns belongs to the caller: each result is modified in place after use, and at the end
+		// of the document every (datatype, value) is hashed again - it must still give what it gave the first time
+		type hashed struct {
+			dt   string
+			raw  any
+			want string
+		}
+		var again []hashed
+		defer func(hs HSpec) {
+			var why []string
+			for _, a := range again {
+				hv2, err := merklize.HashValueWithHasher(hs.H, a.dt, a.raw)
+				if err != nil || hv2.String() != a.want {
+					why = append(why, fmt.Sprintf("HashValue(%s, %v) gave %s; after the caller had modified that result in place the same call gives %v (%v)", a.dt, a.raw, a.want, hv2, err))
+					break
+				}
+			}
+			if len(again) > 0 {
+				out.Emit(Case{Op: "none", In: J{"rehashed": len(again)}, Impl: J{}, Prop: propOf(why), Tags: []string{"results-modified-by-caller", "h:" + hs.Name}, NT: true})
+			}
+		}(hs)
 		for _, e := range ents {
 			if e.VerifDatatype() == "" {
 				continue
@@ -137,6 +158,8 @@ func genC10(out *Out, r *Rng, tier string, n int, shard int) {
 				if hv.Cmp(leaf) != 0 {
 					why = append(why, fmt.Sprintf("HashValue(%s, %v) = %v but the leaf at %v is %v", dt, res["raw"], hv, parts, leaf))
 				}
+				again = append(again, hashed{dt, res["raw"], hv.String()})
+				hv.Add(hv, big.NewInt(1)) // the caller's own number now
 			}
 			if len(why) > 0 && indexed && foundAtOtherPosition(mz, hs, parts, dt, leaf) {
 				tags = append(tags, "shape:sibling-permutation")
